@@ -1,30 +1,57 @@
-"""re-check of the lifting lemmas for operand runs (lemmas/Seq.lean, assumption A5) with the installed Lean 4 (core library only)"""
+"""re-check of the lifting lemmas for operand runs (lemmas/Seq.lean, assumption A5) and of the composition lemmas
+(lemmas/Compose.lean, assumption A6) with the installed Lean 4 (core library only)"""
 import os
 import re
 import shutil
 import subprocess
 
 HERE = os.path.dirname(os.path.dirname(os.path.abspath(__file__)))
-THEOREMS = ["joinWith_append", "joinWith_cons", "map_append'", "length_append'", "length_map'", "map_eq_iff_forall", "forall_of_generic",
+SEQ_THEOREMS = ["joinWith_append", "joinWith_cons", "map_append'", "length_append'", "length_map'", "map_eq_iff_forall", "forall_of_generic",
             "map_generic", "any_append'", "all_append'"]
 ALLOWED_AXIOMS = {"propext", "Quot.sound", "Classical.choice"}
 
 
-def lemma_check():
-    path = os.path.join(HERE, "lemmas", "Seq.lean")
+COMPOSE = {
+    "L-TILE": (["tile_slice", "tile_prefix"], "segments of known lengths that tile the input are the corresponding slices"),
+    "L-LEX": (["run_observation"], "an observation growing by the consumed match at every lexer step equals the whole input at the end"),
+    "L-LR": (["lr_step_text", "lr_run_text", "lr_accept"], "shift / reduce steps that keep the handle's text keep the text of the configuration; "
+             "on acceptance the result prints as the token texts"),
+    "L-IND": (["tree_ind", "fold_eq", "pointwise_map", "fold_ind"], "a traversal whose per-class step is correct for arbitrary related results of the "
+              "recursive calls is correct on every finite tree"),
+    "L-CONF": (["confinement", "schedule_independent"], "steps confined to the state owned by their thread: every schedule gives each thread the "
+               "state it reaches running alone"),
+    "L-MARK": (["erase_append", "body_ok", "marked_head_tail", "mark_ok"], "opening element in front of the head and closing element after the tail: "
+               "erasing the elements gives the original print, and the elements are properly nested"),
+}
+
+
+def compose_check(*names):
+    """finite-check callable: Lean re-check of the named composition lemmas"""
+    def run():
+        theorems = [t for n in names for t in COMPOSE[n][0]]
+        what = "; ".join("%s: %s" % (n, COMPOSE[n][1]) for n in names)
+        return lemma_check("Compose.lean", theorems, "composition lemmas %s (A6) remain paper proofs" % ", ".join(names),
+                           "lemmas/Compose.lean re-checked by Lean (core library, no Mathlib, no sorry) — " + what +
+                           ".  The link between these models and the Python run stays assumed (A6 / A7 / A8).")
+    return run
+
+
+def lemma_check(fname="Seq.lean", theorems=None, absent=None, detail=None):
+    THEOREMS = theorems or SEQ_THEOREMS
+    path = os.path.join(HERE, "lemmas", fname)
     src = open(path).read()
     lean = shutil.which("lean")
     if lean is None:
         # not a verdict about luqum: the lemmas then stay a paper assumption (A5), said so in the evidence
         return {"ok": True, "checked": 0, "failures": [], "exhaustive": False, "samples": [{"lean": "not found on PATH"}],
-                "detail": "Lean not available: lifting lemmas L-J / L-M / L-S / L-Z remain assumed (A5)"}
+                "detail": "Lean not available: " + (absent or "lifting lemmas L-J / L-M / L-S / L-Z remain assumed (A5)")}
     missing = [t for t in THEOREMS if not re.search(r"theorem\s+%s(?![\w'])" % re.escape(t), src)]
     if missing or "sorry" in src or re.search(r"^\s*axiom\b", src, re.M):
-        raise RuntimeError("lemmas/Seq.lean is incomplete: missing %s / sorry / axiom" % missing)
+        raise RuntimeError("lemmas/%s is incomplete: missing %s / sorry / axiom" % (fname, missing))
     r = subprocess.run([lean, path], capture_output=True, text=True, timeout=600, cwd=os.path.dirname(path))
     out = r.stdout + r.stderr
     if r.returncode != 0 or "error" in out:
-        raise RuntimeError("Lean rejected lemmas/Seq.lean:\n" + out[-2000:])
+        raise RuntimeError("Lean rejected lemmas/%s:\n" % fname + out[-2000:])
     used = set()
     for m in re.finditer(r"depends on axioms: \[([^\]]*)\]", out):
         used |= {a.strip() for a in m.group(1).split(",") if a.strip()}
@@ -34,5 +61,5 @@ def lemma_check():
     ver = subprocess.run([lean, "--version"], capture_output=True, text=True).stdout.strip()
     return {"ok": True, "checked": len(THEOREMS), "failures": [], "exhaustive": True,
             "samples": [{"lean": ver, "theorems": THEOREMS, "axioms": sorted(used) or ["none"]}],
-            "detail": "lemmas/Seq.lean re-checked by Lean (core library, no Mathlib, no sorry): join over appended runs, map / length / any / all over "
+            "detail": detail or "lemmas/Seq.lean re-checked by Lean (core library, no Mathlib, no sorry): join over appended runs, map / length / any / all over "
                       "append, pointwise equality of runs, generic member of a stateless loop"}
